@@ -299,6 +299,10 @@ class IVFCHashTree:
                 level_fp.seek(offset)
                 level_fp.write(data)
 
+                # the stored validity of blocks is no longer current
+                for cache in self._valid_results_cache + self._deep_valid_results_cache:
+                    cache.clear()
+
                 level_fp.seek(starting_block * level_data.block_size)
 
                 for x in range(starting_block, ending_block + 1):
